@@ -131,6 +131,8 @@ Section Expr.
       eexists. split; [reflexivity|]. intros st p.
       rewrite val_l_cons, (val_lget lts rt i (vt_of t0)) by (apply map_nth_error; assumption). reflexivity.
     - discriminate.
+    - discriminate.
+    - discriminate.
     - destruct (IHe hint t0 Ht Hp Hh Hm) as (c & Ec & Vc). exists c. split; assumption.
     - destruct (IHe hint t0 Ht Hp Hh Hm) as (c & Ec & Vc). simpl. rewrite Ec.
       destruct t0 as [it|f]; eexists; (split; [reflexivity|]); intros st p; rewrite val_l_app, Vc.
@@ -464,16 +466,18 @@ Qed.
 (* the emitted function validates *)
 Theorem validates_partial f :
   check_func f = true -> locals_ok f = true -> loop_free_block (f_body f) = true ->
-  static_flags f = [] ->
+  f_virt f = [] -> static_flags f = [] ->
   exists w, compile f = Some w /\ validate w = true.
 Proof.
-  intros Hc Hl Hlf Hs. unfold check_func in Hc. apply andb_true_iff in Hc. destruct Hc as [Hc Hr].
+  intros Hc Hl Hlf Hv Hs. unfold static_flags in Hs. apply app_nil_inv in Hs. destruct Hs as [Hs _].
+  unfold check_func in Hc. apply andb_true_iff in Hc. destruct Hc as [Hc Hr].
   destruct (vstmts_ok (f_tys f) (length (f_params f)) (f_ret f)) as (_ & HB & _).
   destruct (HB (f_body f) _ Hc Hs Hlf) as (code & d & Ec & V).
   destruct (returns_diverge (f_tys f) (f_ret f)) as (_ & RB & _).
   pose proof (RB (f_body f) 0%nat None code d (Ec 0%nat None) Hr) as D.
   unfold compile. rewrite (Ec 0%nat None). eexists. split; [reflexivity|].
   unfold validate. simpl w_params. simpl w_locals. simpl w_result. simpl w_body.
-  rewrite (locals_ok_eq f Hl), <- map_app. fold (f_tys f).
+  rewrite (locals_ok_eq f Hl), <- map_app.
+  replace (f_params f ++ f_locals f) with (f_tys f) by (unfold f_tys; rewrite Hv, app_nil_r; reflexivity).
   destruct (V false) as (p' & E & P). rewrite E. rewrite (P D). reflexivity.
 Qed.
